@@ -513,7 +513,7 @@ func (h *httpServerHandler) handlePostResponse(ctx context.Context, w http.Respo
 	}
 
 	// Deliver response using responseManager.
-	if h.responseManager.DeliverResponse(requestIDStr, responseMessage) {
+	if h.responseManager.DeliverResponse(pendingRequestKey(sessionID, requestIDStr), responseMessage) {
 		h.logger.Debugf("Successfully delivered response for request ID: %v", response.ID)
 	} else {
 		h.logger.Debugf("Received response for unknown request ID: %v", response.ID)
@@ -800,7 +800,9 @@ func (h *httpServerHandler) SendRequest(ctx context.Context, sessionID string, r
 	}
 
 	// Register request and get response channel.
-	requestIDStr := requestIDKey(request.ID)
+	// The pending entry is bound to the session the request is sent to: an answer bearing the same
+	// request id but posted by another session must not be accepted.
+	requestIDStr := pendingRequestKey(sessionID, requestIDKey(request.ID))
 	responseChan := h.responseManager.RegisterRequest(requestIDStr)
 	defer h.responseManager.UnregisterRequest(requestIDStr)
 
@@ -854,6 +856,11 @@ func (h *httpServerHandler) isValidPath(requestPath string) bool {
 		return true
 	}
 	return requestPath == h.serverPath
+}
+
+// pendingRequestKey is the responseManager key of a request issued inside a session.
+func pendingRequestKey(sessionID, requestID string) string {
+	return sessionID + "\x00" + requestID
 }
 
 // responseManager manages pending requests and their response channels.
